@@ -106,7 +106,23 @@ type (
 	StrIntM map[string]int
 	KStr    string // named key types
 	KInt    int16
+	MyU64   uint64
+	MyUint  uint
+	MyI8    int8
+	MyF32   float32
 )
+
+// Nums is bridged by pointer: numeric fields of named types, unsigned 64-bit fields and pointers to numbers.
+type Nums struct {
+	ID MyU64 `json:"id"`
+	U  uint64
+	UI MyUint
+	PU *uint64
+	PI *int64
+	I8 MyI8
+	F  MyF32
+	L  MyI64
+}
 
 // Hdr is a named map with methods whose names can collide with keys (like http.Header).
 type Hdr map[string]string
@@ -209,6 +225,21 @@ func init() {
 	reg("map[int]int", map[int]int(nil))
 	reg("StrIntM", StrIntM(nil))
 	reg("Hdr", Hdr(nil))
+	reg("MyU64", MyU64(0))
+	reg("MyUint", MyUint(0))
+	reg("MyI8", MyI8(0))
+	reg("MyF32", MyF32(0))
+	reg("Nums", Nums{})
+	reg("*uint64", (*uint64)(nil))
+	reg("*int64", (*int64)(nil))
+	reg("*MyU64", (*MyU64)(nil))
+	reg("[]MyU64", []MyU64(nil))
+	reg("[]uint64", []uint64(nil))
+	reg("map[uint64]string", map[uint64]string(nil))
+	reg("map[int64]string", map[int64]string(nil))
+	reg("map[uint32]int", map[uint32]int(nil))
+	reg("map[uint]int", map[uint]int(nil))
+	reg("map[string]MyU64", map[string]MyU64(nil))
 	reg("map[KStr]int", map[KStr]int(nil))
 	reg("map[KInt]string", map[KInt]string(nil))
 	reg("map[KStr]MyStr", map[KStr]MyStr(nil))
